@@ -222,6 +222,9 @@ func (l *linkedBuffer) WriteString(str string) error {
 
 func (l *linkedBuffer) recycle() {
 	l.recycleMux.Lock()
+	// slices that were read but not yet released are parked in pinnedList:
+	// give them back too, otherwise closing a stream with unreleased reads leaks them.
+	l.cleanPinnedList()
 	for l.sliceList.size() > 0 {
 		slice := l.sliceList.popFront()
 		if slice.isFromShm {
